@@ -384,6 +384,17 @@ def run(tier, seed):
         st = selftest(wd, head)
         vlib.log("[selftest] %s" % st)
 
+    # ---- 5. the same statement on real networks: the attribution data of fulfils that travel through real
+    # ChannelManagers (out of holding cells, across reconnections, behind monitor writes) reports every hop's hold time
+    import chan_common
+    net_viol, net_cov = chan_common.channet_part(
+        PID, tier, seed, wd,
+        profiles=[("default", 3, 120), ("async", 3, 80)], families=[("failwin", 80), ("fanin", 60)],
+        thorough_profiles=[("default", 3, 1200), ("async", 3, 800), ("asyncreest", 3, 400)], thorough_families=[("failwin", 800), ("fanin", 600), ("fwdlate", 200)])
+    if net_cov["path_success_events_judged"] < 50 and not net_viol and not nviol:
+        raise vlib.ToolError("vacuity: only %d PaymentPathSuccessful events judged on real networks" % net_cov["path_success_events_judged"])
+    nviol += net_viol
+
     samples = [scripts[0], scripts[len(scripts) // 3], scripts[2 * len(scripts) // 3]]
     with open(tpath) as f:
         hd = []
@@ -417,8 +428,11 @@ def run(tier, seed):
         "sender_conclusions": dict(concl),
         "failures_with_bolt4_data_by_code": {("%#x" % c): v for c, v in sorted(with_data.items())},
         "exhaustive": False,
+        "parts": {"hold times end to end (channet)": net_cov},
     }
     vlib.write_evidence(PID, tier, seed, "exploration", cov, [
+        "on real networks (engine channet, 3 nodes) the hold times reported with PaymentPathSuccessful must number the hops of the path; "
+        "everything else those runs show is judged by the channel checks, not here",
         "cryptography is exercised, not modelled: the model fixes shapes, sizes and verdicts",
         "failure attribution is checked for codes without the BADONION bit on routes without blinded hops; "
         "hold times must cover hops 1..min(k,20); the sender's conclusion is fixed for a forwarding hop k: NODE "
